@@ -130,7 +130,7 @@ def expectedBodies : List (String × Nat × String) := [
   ("linop/xray/_xray.py:XRayTransform2D._back_project", 8, "569ea09e0259a62e"),
   ("linop/xray/_xray.py:XRayTransform3D._project", 8, "64c4f993247b41eb"),
   ("linop/xray/_xray.py:XRayTransform3D._project_single", 10, "0b87e89b928520d0"),
-  ("linop/xray/_xray.py:XRayTransform3D._back_project", 9, "b20e862a2feb6396"),
+  ("linop/xray/_xray.py:XRayTransform3D._back_project", 12, "c973af47b89f2b27"),
   ("linop/xray/_xray.py:XRayTransform3D._back_project_single", 12, "6ef292a2a9d4cc62"),
   ("linop/_util.py:jacobian", 11, "c2b0492bcabdfb40")]
 
